@@ -215,4 +215,45 @@ def c07(tier, seed):
                 exhaustive=True)
 
 
-CHECKS = {'C04': c04, 'C07': c07, 'C08': c08, 'C09': c09, 'C19': c19, 'C10': c10, 'C01': c01, 'C02': c02, 'C03': c03, 'C05': c05, 'C06': c06, 'C12': c12}
+
+def _strip(d, keys):
+    if isinstance(d, dict):
+        return {k: _strip(v, keys) for k, v in d.items() if k not in keys}
+    if isinstance(d, list):
+        return [_strip(x, keys) for x in d]
+    return d
+
+
+def c11(tier, seed):
+    t = 'quick' if tier == 'quick' else 'thorough'
+    ev_of = lambda tr: tr['ev']                                              # noqa: E731
+    disp_pair = (lambda scn: _strip(scn, ('kind', 'flavour')), ev_of)
+    stages = []
+    for fam in (('c01_' + t, 'c03', 'c12_' + t) if tier == 'quick' else ('c01_' + t, 'c03', 'c12_' + t, 'c02_' + t)):
+        st = disp_stage(fam)
+        st.pairing = disp_pair
+        st.selftest = False
+        stages.append(st)
+    for fam in ('c09_' + t, 'c19_' + t):
+        st = retry_stage(fam)
+        st.pairing = (lambda scn: _strip(scn, ('kind',)), ev_of)
+        st.selftest = False
+        stages.append(st)
+    cl = c08(tier, seed)['stages'][0]
+    cl.pairing = (lambda scn: _strip(scn, ('kind',)), ev_of)
+    cl.selftest = False
+    stages.append(cl)
+    e2e = c07(tier, seed)['stages'][0]
+    e2e.pairing = (lambda scn: _strip(scn, ('ck', 'dk')), ev_of)
+    e2e.selftest = False
+    stages.append(e2e)
+    return dict(stages=stages,
+                rule='the request corpora of C01, C02, C03, C12 are dispatched by the synchronous dispatcher, the asynchronous '
+                     'dispatcher with coroutines and the asynchronous dispatcher with plain functions; the call / transport-script '
+                     'corpora of C07, C08, C09, C19 run on the synchronous and the asynchronous client; every execution is validated '
+                     'against the same half-agnostic specification and each pair of recorded event sequences is compared for '
+                     'equality; non-trivial = executions with at least two events',
+                assumptions=ASSUME_DISP + ASSUME_CLIENT[len(ASSUME_COMMON):], exhaustive=True, also_findings_of=['C07'])
+
+
+CHECKS = {'C04': c04, 'C11': c11, 'C07': c07, 'C08': c08, 'C09': c09, 'C19': c19, 'C10': c10, 'C01': c01, 'C02': c02, 'C03': c03, 'C05': c05, 'C06': c06, 'C12': c12}
